@@ -19,6 +19,7 @@ Case (driver "attacher"):
                                  codes[k % len] (250, or a 5xx refusal: nothing changes in tor)
    "hold_setconf": bool          (optional) the answers to those SETCONFs are under way until an s_ack step (FIFO);
                                  every step that involves tor (events, tor acting) first lets all of them arrive
+   "equal":  bool                (optional) A and B are distinct objects that compare equal (__eq__ by value)
    "falsy":  [fa, fb]            (optional) attacher A / B is an object whose class defines 1: __len__ -> 0,
                                  2: __bool__ -> False (an "empty container" kind of attacher); 0: neither
    "steps":  [...]}
@@ -102,7 +103,8 @@ RULE = ("Model-based, two generated families over the reference tor world (snaps
         "itself (one-shot), try to install the other attacher (must be refused) or install itself again, and the "
         "application may remove the attacher while late answers are outstanding; tor may refuse the SETCONFs of "
         "set_attacher (5xx) and their answers may arrive late (FIFO, as separate steps) with install / remove / "
-        "install sequences in between. "
+        "install sequences in between; the two attacher doubles may be distinct objects that compare equal; NEW "
+        "events may carry SOCKS_USERNAME/SOCKS_PASSWORD QuotedStrings with blanks. "
         "'via': several concurrent Circuit.stream_via()/TorCircuitEndpoint connects over fake SOCKS connections "
         "with distinct local addresses (stages: TCP connect, method reply, tor announces the stream, SOCKS "
         "reply, end of the connection), interleaved with unrelated streams to the same target whose source differs "
@@ -155,6 +157,9 @@ ASSUMPTIONS = [
     "successor (or the empty slot) must behave as if it had not happened. With refusals or late answers in a "
     "case, set_attacher(same) and stream_via are not generated and the SETCONF lines are compared as one "
     "sequence at the end (install -> 1, removal -> 0, nothing else)",
+    "a 'different' attacher is a different object: two attacher instances that compare equal (__eq__) are still "
+    "two attachers, the second is refused; STREAM events of a modern tor may carry SOCKS_USERNAME / "
+    "SOCKS_PASSWORD QuotedStrings, with blanks and escaped quotes (no '=' inside)",
     "only None removes the attacher: an attacher object that happens to be falsy (defines __len__/__bool__) "
     "is installed like any other ('while a stream attacher is installed' - truthiness is not part of it); an "
     "empty PriorityAttacher has no preference (ATTACHSTREAM id 0) and asks sub-attachers added later",
@@ -197,6 +202,11 @@ VIA_TARGETS = [("www.example.com", 80), ("example.org", 443), ("10.1.2.3", 8080)
                ("xn--bcher-kva.example", 65535), ("93.184.216.34", 80)]
 LOCAL_HOSTS = ["127.0.0.1", "127.0.0.1", "127.0.0.1", "10.0.0.5", "192.168.1.77"]
 LOCAL_PORTS = [40000, 40001, 54321, 54322, 1025, 65535, 33333, 40002]
+
+
+# SOCKS_USERNAME / SOCKS_PASSWORD as tor prints them (QuotedStrings) on the events of a modern tor
+SOCKS_AUTH = [None, None, ('"duckduckgo.com"', '"4a2f6ef74fe3aa0bf8876b4e927a28f7"'), ('"mail client"', None),
+              ('"x"', '"a b  c"'), ('"q\\"uote d"', '""')]
 
 
 class AttacherBoom(Exception):
@@ -249,7 +259,7 @@ def attacher_cases():
             "modern": m, "big_ids": big, "pre": pre, "window": win, "coro": coro, "prio": prio,
             "steps": (faults[2] + s) if (faults[0] or faults[1]) else s,
             "falsy": fal, "prio_at_install": min(npi, len(prio)),
-            "setconf_codes": faults[0], "hold_setconf": faults[1]},
+            "setconf_codes": faults[0], "hold_setconf": faults[1], "equal": bool(fal[0] == fal[1] == 0 and npi != 1)},
         st.booleans(), st.sampled_from([False, False, False, True]),
         _pre(24),
         st.one_of(st.just([]), st.just([]), torworld.steps(max_size=8, weights=WINDOW_WEIGHTS)),
@@ -698,6 +708,12 @@ class Run(object):
                         "%s: the installed attacher was never asked; earlier tor had refused the install of an "
                         "attacher that had already been removed when the refusal arrived" % where)
                 return
+            auth = getattr(rec.m, "socks_auth", None)
+            if n == 0 and not lines and auth and " " in auth[0] + (auth[1] or ""):
+                res.bad("no-decision/quoted-keyword-value-with-blank",
+                        "%s: the attacher was not asked and nothing was sent; the NEW event carried "
+                        "SOCKS_USERNAME=%s SOCKS_PASSWORD=%s" % (where, auth[0], auth[1]))
+                return
             if n == 0:
                 res.bad("attacher-not-consulted", "%s: the installed attacher was never asked" % where)
                 return
@@ -844,7 +860,21 @@ def _make_attachers(run):
             return FalseBool
         return base
 
+    def equal(base):
+        class ValueEqual(base):
+            """Distinct instances that compare equal (a dataclass-style attacher with the same configuration)."""
+            def __eq__(self, other):
+                return isinstance(other, base)
+
+            def __ne__(self, other):
+                return not isinstance(other, base)
+
+            def __hash__(self):
+                return 17
+        return ValueEqual
+
     run.falsy_class = falsy
+    run.equal_class = equal
 
     @implementer(IStreamAttacher)
     class SubAttacher(object):
@@ -885,6 +915,12 @@ class AttacherRun(Run):
         else:
             self.attachers["A"] = self.falsy_class(Coro if case["coro"][0] else Sync, fal[0])("A")
         self.attachers["B"] = self.falsy_class(Coro if case["coro"][1] else Sync, fal[1])("B")
+        self.equal_attachers = bool(case.get("equal")) and not self.prio and case["coro"][0] == case["coro"][1]
+        if self.equal_attachers:
+            cls = self.equal_class(Coro if case["coro"][0] else Sync)
+            self.attachers["A"], self.attachers["B"] = cls("A"), cls("B")
+            if not (self.attachers["A"] == self.attachers["B"] and self.attachers["A"] is not self.attachers["B"]):
+                raise HarnessError("equal attacher doubles are not equal-but-distinct")
         self.coro = {"A": bool(case["coro"][0]) and not self.prio, "B": bool(case["coro"][1])}
 
     # -- consultations
@@ -1066,7 +1102,10 @@ class AttacherRun(Run):
                 target = NEAR_EXIT_TARGETS[pick % len(NEAR_EXIT_TARGETS)]
             src = torworld.SOURCES[d % len(torworld.SOURCES)]
             purpose = "USER" if d % 4 else torworld.STREAM_PURPOSES[(d // 4) % len(torworld.STREAM_PURPOSES)]
-            rp = self.world.new_stream(kind, target, src, purpose)
+            auth = SOCKS_AUTH[(d // 16) % len(SOCKS_AUTH)]
+            if auth is not None:
+                res.label("stream:socks-auth-" + ("with-blanks" if " " in auth[0] + (auth[1] or "") else "quoted"))
+            rp = self.world.new_stream(kind, target, src, purpose, socks_auth=auth)
             if rp is None:
                 return
             rec = self.rec_of(rp.obj)
@@ -1224,6 +1263,10 @@ class AttacherRun(Run):
         raised = None
         if action == "second" and self.stale_refusals:
             tag_second = "stale-install-refusal-disturbs-the-successor"
+        elif self.equal_attachers:
+            tag_second = "second-attacher-accepted/distinct-object-that-compares-equal"
+            if action == "second":
+                res.label("set_attacher:second/distinct-object-that-compares-equal")
         else:
             tag_second = "second-attacher-accepted"
         try:
@@ -1920,6 +1963,13 @@ MUTANTS = [
      "        yield state.set_attacher(_get_circuit_attacher.attacher, reactor)\n",
      "        attacher = _CircuitAttacher()\n        yield state.set_attacher(attacher, reactor)\n"
      "        _get_circuit_attacher.attacher = attacher\n"),
+    ("equal-attacher-taken-for-the-installed-one", "txtorcon/torstate.py",
+     "            if self._attacher is attacher:\n                return\n",
+     "            if self._attacher == attacher:\n                return\n"),
+    ("quoted-keyword-value-with-blank-aborts-the-stream-update", "txtorcon/util.py",
+     "    return dict(x.split('=', 1) for x in filtered)",
+     "    kw = dict(x.split('=', 1) for x in filtered)\n    for k, v in kw.items():\n"
+     "        if v.startswith('\"'):\n            kw[k] = unescape_quoted_string(v)\n    return kw"),
     ("attachstream-names-the-wrong-stream", "txtorcon/torstate.py",
      '                    u"ATTACHSTREAM {} {}".format(stream.id, circ.id).encode("ascii")',
      '                    u"ATTACHSTREAM {} {}".format(circ.id, stream.id).encode("ascii")'),
